@@ -753,7 +753,20 @@ fn parent_main(def: &CheckDef, prop: &str, tier: Tier, cli_tier: &str, bins: &[(
         sub_cases: BTreeMap::new(),
     };
     let mut flavours_used = vec![];
-    for (flavour, bin) in bins {
+    let mut known = load_known(&root.join("known_findings.txt"));
+    if let Ok(rd) = std::fs::read_dir(root.join("known_findings.d")) {
+        let mut ps: Vec<_> = rd.filter_map(|e| e.ok()).map(|e| e.path()).collect();
+        ps.sort();
+        for p in ps {
+            known.extend(load_known(&p));
+        }
+    }
+    // Crashes and hangs that are not recorded findings: after a few of them the verdict is
+    // settled (VIOLATION), and every further hanging case would cost a full timeout, so the
+    // run stops early (the evidence then says exhaustive: false).
+    let mut unknown_crashes = 0u32;
+    let mut aborted_early = false;
+    'flavours: for (flavour, bin) in bins {
         // Does any sub run under this flavour?
         let any = def.subs.iter().any(|s| if s.flavours.is_empty() { *flavour == default_flavour } else { s.flavours.contains(&flavour.as_str()) });
         if !any {
@@ -830,6 +843,16 @@ fn parent_main(def: &CheckDef, prop: &str, tier: Tier, cli_tier: &str, bins: &[(
                         });
                         *tot.outcomes.entry(format!("crash:{}", kind)).or_insert(0) += 1;
                         crashes += 1;
+                        {
+                            let v = tot.violations.last().unwrap();
+                            if !known.iter().any(|k| k.prop == prop && k.entry == v.entry && k.site == v.site && k.kind == v.kind) {
+                                unknown_crashes += 1;
+                            }
+                        }
+                        if unknown_crashes >= 3 {
+                            aborted_early = true;
+                            continue;
+                        }
                         if crashes > 200 {
                             tot.machinery.push("more than 200 worker crashes; giving up on respawn".into());
                             continue;
@@ -839,6 +862,16 @@ fn parent_main(def: &CheckDef, prop: &str, tier: Tier, cli_tier: &str, bins: &[(
                 }
             }
             children = next;
+            if aborted_early {
+                for mut c in children.drain(..) {
+                    let _ = c.proc.kill();
+                    let _ = c.proc.wait();
+                    let text = c.reader.take().unwrap().join().unwrap_or_default();
+                    let _ = absorb(&mut tot, &text);
+                    let _ = std::fs::remove_file(&c.slot_path);
+                }
+                break 'flavours;
+            }
         }
     }
 
@@ -854,24 +887,19 @@ fn parent_main(def: &CheckDef, prop: &str, tier: Tier, cli_tier: &str, bins: &[(
         }
         bounds.insert(sub.name.clone(), json!({"cases": sub.len, "flavours": if sub.flavours.is_empty() { vec![default_flavour.clone()] } else { sub.flavours.iter().map(|s| s.to_string()).collect() }, "executed": cases, "evaluations": evals, "slowest_worker_ms": ms, "bound": sub.bounds}));
     }
-    if !exhaustive {
+    if aborted_early {
+        exhaustive = false;
+        *tot.outcomes.entry("run-stopped-early-after-3-unlisted-crashes-or-hangs".to_string()).or_insert(0) += 1;
+    } else if !exhaustive {
         tot.machinery.push("not every case of every sub was executed (coverage accounting mismatch)".into());
     }
     for r in &def.required_outcomes {
-        if tot.outcomes.get(r).cloned().unwrap_or(0) == 0 {
+        if !aborted_early && tot.outcomes.get(r).cloned().unwrap_or(0) == 0 {
             tot.machinery.push(format!("vacuity guard: outcome class '{}' never observed", r));
         }
     }
 
     // Classify violations against the committed known-findings list.
-    let mut known = load_known(&root.join("known_findings.txt"));
-    if let Ok(rd) = std::fs::read_dir(root.join("known_findings.d")) {
-        let mut ps: Vec<_> = rd.filter_map(|e| e.ok()).map(|e| e.path()).collect();
-        ps.sort();
-        for p in ps {
-            known.extend(load_known(&p));
-        }
-    }
     let mut uniq: BTreeMap<String, Violation> = BTreeMap::new();
     for v in tot.violations.drain(..) {
         uniq.entry(v.key()).or_insert(v);
@@ -1005,7 +1033,22 @@ fn replay_main(build: &impl Fn(&str, Tier) -> Option<CheckDef>, prop: &str, file
     if !inproc {
         // Execute in a child so that aborts and stack overflows are observed.
         let exe = std::env::current_exe().unwrap();
-        let st = Command::new(exe).arg(prop).arg("--replay").arg(file).arg("--inproc").status();
+        let st = Command::new(exe).arg(prop).arg("--replay").arg(file).arg("--inproc").spawn().and_then(|mut ch| {
+            let t0 = Instant::now();
+            loop {
+                if let Some(st) = ch.try_wait()? {
+                    return Ok(st);
+                }
+                if t0.elapsed() > Duration::from_secs(180) {
+                    let _ = ch.kill();
+                    let _ = ch.wait();
+                    println!("REPLAY: the case did not finish within 180 s (hang)");
+                    println!("VIOLATION property={} replay={}", prop, file);
+                    std::process::exit(1);
+                }
+                std::thread::sleep(Duration::from_millis(50));
+            }
+        });
         return match st {
             Ok(s) => match (s.code(), s.signal()) {
                 (Some(c), _) => c,
